@@ -9,6 +9,7 @@ import (
 	"math/rand"
 	"sort"
 	"strings"
+	"sync"
 	"testing"
 
 	"github.com/creachadair/jrpc2"
@@ -97,6 +98,10 @@ func (env *c17Env) build(t *topo, path string) jrpc2.Assigner {
 	}
 	return sm
 }
+
+type assignFunc func(context.Context, string) jrpc2.Handler
+
+func (f assignFunc) Assign(ctx context.Context, m string) jrpc2.Handler { return f(ctx, m) }
 
 // ctxAssigner checks that the assigner sees the inbound request.
 type ctxAssigner struct {
@@ -265,6 +270,62 @@ func TestC17(t *testing.T) {
 						"%s: documented rule (model) says %q, server did %q", lines[i], model[i], impl[i])
 				}
 			}
+		}
+	}
+
+	// ---- the assigner is consulted for EVERY request, with that request in its context: a batch
+	// that repeats a method name must not reuse the handler assigned for an earlier member
+	{
+		var mu sync.Mutex
+		consulted := map[string]int{}
+		pra := assignFunc(func(actx context.Context, method string) jrpc2.Handler {
+			in := jrpc2.InboundRequest(actx)
+			if in == nil || in.Method() != method {
+				res.Violatef("assigner does not see the inbound request", method, "InboundRequest(ctx)=%v for method %q", in, method)
+				return nil
+			}
+			id := in.ID()
+			mu.Lock()
+			consulted[id]++
+			mu.Unlock()
+			return func(hctx context.Context, req *jrpc2.Request) (any, error) {
+				return map[string]string{"assignedFor": id, "ranFor": req.ID()}, nil
+			}
+		})
+		for _, conc := range []int{1, 4} {
+			loc := server.NewLocal(pra, &server.LocalOptions{Server: &jrpc2.ServerOptions{Concurrency: conc}})
+			for round := 0; round < 5; round++ {
+				names := []string{"Svc.Echo", "Other", "Svc.Echo", "Svc.Echo", "Other", "x", "Svc.Echo"}[:2+rng.Intn(6)]
+				specs := make([]jrpc2.Spec, len(names))
+				for i, n := range names {
+					specs[i] = jrpc2.Spec{Method: n}
+				}
+				mu.Lock()
+				for k := range consulted {
+					delete(consulted, k)
+				}
+				mu.Unlock()
+				rsps, err := loc.Client.Batch(ctx, specs)
+				in := map[string]any{"batch": names, "concurrency": conc}
+				res.Case(fmt.Sprintf("batch-assign/%d/%v", conc, names), true, in)
+				res.Count("batch-assign")
+				if err != nil {
+					res.Violatef("batch failed", in, "%v", err)
+					continue
+				}
+				for _, rsp := range rsps {
+					var out map[string]string
+					if e := rsp.UnmarshalResult(&out); e != nil || out["assignedFor"] != out["ranFor"] || out["ranFor"] != rsp.ID() {
+						res.Violatef("a request ran the handler assigned for another request", in, "reply id %s: %v (%v)", rsp.ID(), out, e)
+					}
+					mu.Lock()
+					if consulted[rsp.ID()] != 1 {
+						res.Violatef(fmt.Sprintf("assigner consulted %d times for one request", consulted[rsp.ID()]), in, "request id %s", rsp.ID())
+					}
+					mu.Unlock()
+				}
+			}
+			loc.Close()
 		}
 	}
 
